@@ -4,6 +4,16 @@ From Verif Require Import C10.Model C10.Proofs C10.Proofs2 C10.Proofs3 C10.Plugi
 Import ListNotations.
 Open Scope Z_scope.
 
+Section WithTtl.
+(* everything below holds for either TTL conversion *)
+Variable tv : ttl_variant.
+Local Notation kstep := (Plugin.kstep tv).
+Local Notation kexec := (Plugin.kexec tv).
+Local Notation krun := (Plugin.krun tv).
+Local Notation pstep := (Plugin.pstep tv).
+Local Notation pexec := (Plugin.pexec tv).
+Local Notation prun := (Plugin.prun tv).
+
 (* ------------------------------------------------------------------ *)
 (* specification vocabulary                                            *)
 
@@ -70,7 +80,7 @@ Qed.
 Lemma pget_pexec_same : forall v s k a,
   pget k (pexec v s (PK k a)) = kexec v k (pget k s) a.
 Proof.
-  intros v s k a. unfold pexec, kexec. simpl.
+  intros v s k a. unfold Plugin.pexec, Plugin.kexec. simpl.
   destruct (kstep v k (pget k s) a) as [ks'|]; [|reflexivity].
   unfold pget. simpl. apply kget_kset_same.
 Qed.
@@ -78,7 +88,7 @@ Qed.
 Lemma pget_pexec_other : forall v s k k' a,
   qkey_eqb k' k = false -> pget k (pexec v s (PK k' a)) = pget k s.
 Proof.
-  intros v s k k' a N. unfold pexec. simpl.
+  intros v s k k' a N. unfold Plugin.pexec. simpl.
   destruct (kstep v k' (pget k' s) a) as [ks'|]; [|reflexivity].
   unfold pget. simpl. now apply kget_kset_other.
 Qed.
@@ -91,7 +101,7 @@ Lemma pget_prun : forall v acts s k,
   pget k (prun v s acts) = krun v k (pget k s) (proj k acts).
 Proof.
   intros v acts. induction acts as [|a rest IH]; intros s k; simpl; [reflexivity|].
-  unfold prun in *. simpl. rewrite IH. destruct a as [k' a|rid now].
+  unfold Plugin.prun in *. simpl. rewrite IH. destruct a as [k' a|rid now].
   - destruct (qkey_eqb k' k) eqn:E.
     + apply qkey_eqb_eq in E. subst k'. simpl. now rewrite pget_pexec_same.
     + now rewrite pget_pexec_other.
@@ -107,7 +117,7 @@ Lemma krun_inv : forall (P : kst -> Prop) v k,
   forall acts ks, P ks -> P (krun v k ks acts).
 Proof.
   intros P v k Step acts. induction acts as [|a rest IH]; intros ks H; simpl; [exact H|].
-  apply IH. unfold kexec. destruct (kstep v k ks a) eqn:E; [eapply Step; eauto|exact H].
+  apply IH. unfold Plugin.kexec. destruct (kstep v k ks a) eqn:E; [eapply Step; eauto|exact H].
 Qed.
 
 (* ------------------------------------------------------------------ *)
@@ -147,7 +157,7 @@ Lemma kstep_insts : forall (P : st -> Prop) v k,
   forall ks a ks', Forall P (insts ks) -> kstep v k ks a = Some ks' -> Forall P (insts ks').
 Proof.
   intros P v k Pinit Pstep ks a ks' F H.
-  destruct a as [rid now|rid now|rid p hdrs t now|rid ra now|h now]; cbn [kstep] in H.
+  destruct a as [rid now|rid now|rid p hdrs t now|rid ra now|h now]; cbn [Plugin.kstep] in H.
   - destruct (pfind rid (preqs ks)); [discriminate|].
     destruct (cur ks).
     + inversion H; subst; exact F.
@@ -199,7 +209,7 @@ Lemma ONE_kstep : forall k ks a ks',
   ONE ks -> kstep Atomic k ks a = Some ks' -> ONE ks'.
 Proof.
   intros k ks a ks' O H. unfold ONE in *.
-  destruct a as [rid now|rid now|rid p hdrs t now|rid ra now|h now]; cbn [kstep] in H.
+  destruct a as [rid now|rid now|rid p hdrs t now|rid ra now|h now]; cbn [Plugin.kstep] in H.
   - destruct (pfind rid (preqs ks)); [discriminate|].
     destruct (cur ks) eqn:C.
     + inversion H; subst; simpl. destruct O as [[O1 O2]|[O1 O2]]; [congruence|]. right. split; congruence.
@@ -250,7 +260,7 @@ Lemma In_pupd : forall id f l q, In q (pupd id f l) ->
   In q l \/ exists q0, In q0 l /\ q_rid q0 = id /\ q = f q0.
 Proof.
   induction l as [|x t IH]; simpl; intros q H; [tauto|].
-  destruct (q_rid x =? id) eqn:E; cbn [kstep] in H.
+  destruct (q_rid x =? id) eqn:E; cbn [Plugin.kstep] in H.
   - apply Z.eqb_eq in E. destruct H as [H|H]; [right; exists x; auto|left; auto].
   - destruct H as [H|H]; [left; auto|].
     destruct (IH _ H) as [G|[q0 [G1 [G2 G3]]]]; [left; auto|right; exists q0; auto].
@@ -260,7 +270,7 @@ Lemma BOUND_kstep : forall k ks a ks',
   BOUND ks -> kstep Atomic k ks a = Some ks' -> BOUND ks'.
 Proof.
   intros k ks a ks' B H.
-  destruct a as [rid now|rid now|rid p hdrs t now|rid ra now|h now]; cbn [kstep] in H.
+  destruct a as [rid now|rid now|rid p hdrs t now|rid ra now|h now]; cbn [Plugin.kstep] in H.
   - destruct (pfind rid (preqs ks)); [discriminate|].
     destruct (cur ks) eqn:C; inversion H; subst; simpl; intros q I; apply in_app_or in I;
       destruct I as [I|[I|[]]].
@@ -338,7 +348,7 @@ Proof.
   { intros qs s a0 s' E A S. rewrite <- E. apply (AT_cfg (ccfg k qs)); [reflexivity|].
     rewrite <- (step_exec _ _ _ _ S). apply (AT_exec _ _ tl); [exact W| |rewrite E; exact Le].
     apply (AT_cfg (ccfg k 0)); [reflexivity|exact A]. }
-  destruct a as [rid now|rid now|rid p hdrs t now|rid ra now|h now]; cbn [kstep] in H; simpl kact_now in *.
+  destruct a as [rid now|rid now|rid p hdrs t now|rid ra now|h now]; cbn [Plugin.kstep] in H; simpl kact_now in *.
   - destruct (pfind rid (preqs ks)); [discriminate|].
     destruct (cur ks).
     + inversion H; subst; exact F'.
@@ -379,7 +389,7 @@ Proof.
   intros v k acts. induction acts as [|a rest IH]; intros ks tl W M F; simpl in *.
   - eauto.
   - apply andb_prop in M. destruct M as [M1 M2]. apply Z.leb_le in M1.
-    unfold kexec. destruct (kstep v k ks a) as [ks'|] eqn:E.
+    unfold Plugin.kexec. destruct (kstep v k ks a) as [ks'|] eqn:E.
     + eapply IH; eauto. eapply kstep_AT; eauto.
     + eapply (IH ks (kact_now a)); eauto.
       rewrite Forall_forall in *. intros s I. apply (AT_later _ _ tl); auto.
@@ -432,7 +442,7 @@ Lemma STAT_kstep : forall v k (Q : Z -> Z -> Prop) ks a ks',
   STAT k Q ks -> kstep v k ks a = Some ks' -> STAT k Q ks'.
 Proof.
   intros v k Q ks a ks' QA S H.
-  destruct a as [rid now|rid now|rid p hdrs t now|rid ra now|h now]; cbn [kstep] in H.
+  destruct a as [rid now|rid now|rid p hdrs t now|rid ra now|h now]; cbn [Plugin.kstep] in H.
   - destruct (pfind rid (preqs ks)); [discriminate|].
     destruct (cur ks); [|destruct v]; inversion H; subst; simpl; intros q sc I E;
       apply in_app_or in I; destruct I as [I|[I|[]]]; try (now apply S); subst q; discriminate.
@@ -462,7 +472,7 @@ Lemma STAT_krun : forall v k (Q : Z -> Z -> Prop) acts ks,
 Proof.
   intros v k Q acts. induction acts as [|a rest IH]; intros ks QA S; simpl; [exact S|].
   apply IH; [intros rid p hdrs t now I; apply (QA rid p hdrs t now); right; exact I|].
-  unfold kexec. destruct (kstep v k ks a) as [ks'|] eqn:E; [|exact S].
+  unfold Plugin.kexec. destruct (kstep v k ks a) as [ks'|] eqn:E; [|exact S].
   eapply STAT_kstep; eauto. intros rid p hdrs t now Ea. apply (QA rid p hdrs t now). left. exact Ea.
 Qed.
 
@@ -638,7 +648,7 @@ Proof.
     assert (Ir' : In (rid r) (map rid (reqs s))) by (rewrite <- E; now apply in_map).
     apply in_map_iff in Ir'. destruct Ir' as [r0 [E0 I0]]. rewrite <- E0.
     eapply W; eauto. eapply nth_error_In; eauto. }
-  destruct a as [rid0 now|rid0 now|rid0 p hdrs t now|rid0 ra now|h now]; cbn [kstep] in H.
+  destruct a as [rid0 now|rid0 now|rid0 p hdrs t now|rid0 ra now|h now]; cbn [Plugin.kstep] in H.
   - destruct (pfind rid0 (preqs ks)) eqn:PF; [discriminate|].
     assert (ND' : forall q0, q_rid q0 = rid0 -> NoDup (map q_rid (preqs ks ++ [q0]))).
     { intros q0 E0. rewrite map_app. simpl. apply NoDup_snoc; [exact ND|]. rewrite E0. now apply pfind_None. }
@@ -711,3 +721,150 @@ Proof.
     rewrite (pfind_rid _ _ _ PF). congruence. }
   subst q'. exact S'.
 Qed.
+
+(* ------------------------------------------------------------------ *)
+(* the TTL branch fires only after the TTL handed to Enqueue elapsed    *)
+
+Lemma drain_recs : forall c now h s s' rel,
+  drain c now h s = (s', rel) ->
+  forall r', In r' (reqs s') ->
+  exists r, In r (reqs s) /\ rid r' = rid r /\ arr r' = arr r /\ ttl r' = ttl r.
+Proof.
+  intros c now h. induction h as [|e h' IH]; intros s s' rel D r' I; simpl in D.
+  - inversion D; subst. exists r'. simpl in I. auto.
+  - destruct (counter s <? quota c).
+    + destruct (is_parked s (eid e)).
+      * destruct (drain c now h' (release s (eid e) now)) as [s2 rel2] eqn:D2.
+        inversion D; subst s2 rel.
+        destruct (IH _ _ _ D2 r' I) as [r1 [I1 [A [B C]]]]. simpl in I1.
+        apply In_upd_weak in I1. destruct I1 as [I1|[r0 [F0 E0]]].
+        -- exists r1. auto.
+        -- subst r1. exists r0. simpl in *. split; [apply (find_In _ _ _ F0)|auto].
+      * eauto.
+    + inversion D; subst. exists r'. simpl in I. auto.
+Qed.
+
+Lemma step_recs : forall c s a s', step c s a = Some s' ->
+  forall r', In r' (reqs s') ->
+  (exists r, In r (reqs s) /\ rid r' = rid r /\ arr r' = arr r /\ ttl r' = ttl r) \/
+  (exists id p t l now, a = EnqLocked id p t l now /\ rid r' = id /\ arr r' = now /\ ttl r' = l).
+Proof.
+  intros c s a s' H r' I.
+  assert (Upd : forall id f, (forall r, rid (f r) = rid r /\ arr (f r) = arr r /\ ttl (f r) = ttl r) ->
+            In r' (upd id f (reqs s)) ->
+            exists r, In r (reqs s) /\ rid r' = rid r /\ arr r' = arr r /\ ttl r' = ttl r).
+  { intros id f P J. apply In_upd_weak in J. destruct J as [J|[r0 [F0 E0]]]; [exists r'; auto|].
+    subst r'. exists r0. split; [apply (find_In _ _ _ F0)|apply P]. }
+  destruct a as [id p t l now|id now|now|id now|id now]; cbn [step] in H.
+  - destruct (find id (reqs s)); [discriminate|]. inversion H; subst. unfold enq_locked in I.
+    assert (App : forall r0, rid r0 = id -> arr r0 = now -> ttl r0 = l ->
+              In r' (reqs (roll c s now) ++ [r0]) ->
+              (exists r, In r (reqs s) /\ rid r' = rid r /\ arr r' = arr r /\ ttl r' = ttl r) \/
+              (exists id0 p0 t0 l0 now0, EnqLocked id p t l now = EnqLocked id0 p0 t0 l0 now0 /\
+                                         rid r' = id0 /\ arr r' = now0 /\ ttl r' = l0)).
+    { intros r0 E1 E2 E3 J. apply in_app_or in J. destruct J as [J|[J|[]]].
+      - left. rewrite roll_reqs in J. exists r'. auto.
+      - right. subst r'. exists id, p, t, l, now. auto. }
+    destruct (counter (roll c s now) <? quota c);
+      [|destruct (qsize c <=? qcount (reqs (roll c s now)))]; simpl in I;
+      eapply App; eauto; reflexivity.
+  - destruct (find id (reqs s)) as [r|]; [|discriminate].
+    destruct (phase_eqb (ph r) Unlocked); [|discriminate]. inversion H; subst; simpl in I.
+    left. eapply Upd; eauto. intro r0. simpl. auto.
+  - inversion H; subst. unfold tick in I.
+    destruct (drain c now (heap (roll c s now)) (roll c s now)) as [s1 rel] eqn:D. simpl in I.
+    left. destruct (drain_recs _ _ _ _ _ _ D r' I) as [r [J K]]. rewrite roll_reqs in J. exists r. auto.
+  - destruct (find id (reqs s)) as [r|]; [|discriminate].
+    destruct (phase_eqb (ph r) Parked && (dl r <=? now)); [|discriminate]. inversion H; subst; simpl in I.
+    left. eapply Upd; eauto. intro r0. simpl. auto.
+  - destruct (find id (reqs s)) as [r|]; [|discriminate].
+    destruct ((phase_eqb (ph r) Released || phase_eqb (ph r) Expired) && counted r); [|discriminate].
+    inversion H; subst; simpl in I.
+    left. eapply Upd; eauto. intro r0. simpl. auto.
+Qed.
+
+(* where a request record of a queue comes from *)
+Definition ORIG (Q : Z -> Z -> Z -> Prop) (ks : kst) : Prop :=
+  forall s r, In s (insts ks) -> In r (reqs s) -> Q (rid r) (arr r) (ttl r).
+
+Lemma ORIG_kstep : forall v k (Q : Z -> Z -> Z -> Prop) ks a ks',
+  (forall rid p hdrs t now, a = KEnq rid p hdrs t now -> Q rid now (ttl_ns tv p)) ->
+  ORIG Q ks -> kstep v k ks a = Some ks' -> ORIG Q ks'.
+Proof.
+  intros v k Q ks a ks' QA O H. unfold ORIG in *.
+  assert (Old : forall h s s' a0, nth_error (insts ks) h = Some s -> step (ccfg k 0) s a0 = Some s' ->
+            (forall id p t l now, a0 <> EnqLocked id p t l now) ->
+            forall s1 r, In s1 (set_nth h s' (insts ks)) -> In r (reqs s1) -> Q (rid r) (arr r) (ttl r)).
+  { intros h s s' a0 N S NE s1 r I1 Ir.
+    destruct (In_set_nth _ _ _ _ I1) as [I|I]; [eapply O; eauto|]. subst s1.
+    destruct (step_recs _ _ _ _ S r Ir) as [[r0 [I0 [E1 [E2 E3]]]]|[id [p [t [l [now [E _]]]]]]].
+    - rewrite E1, E2, E3. eapply O; eauto. eapply nth_error_In; eauto.
+    - exfalso. eapply NE; eauto. }
+  destruct a as [rid0 now|rid0 now|rid0 p hdrs t now|rid0 ra now|h now]; cbn [Plugin.kstep] in H.
+  - destruct (pfind rid0 (preqs ks)); [discriminate|].
+    destruct (cur ks); [|destruct v]; inversion H; subst; simpl; intros s r Is Ir; try (eapply O; eauto; fail).
+    apply in_app_or in Is. destruct Is as [Is|[Is|[]]]; [eapply O; eauto|subst s; simpl in Ir; tauto].
+  - destruct v; [discriminate|]. destruct (pfind rid0 (preqs ks)) as [q|]; [|discriminate].
+    destruct (q_inst q); [discriminate|]. inversion H; subst; simpl. intros s r Is Ir.
+    apply in_app_or in Is. destruct Is as [Is|[Is|[]]]; [eapply O; eauto|subst s; simpl in Ir; tauto].
+  - destruct (pfind rid0 (preqs ks)) as [q|]; [|discriminate].
+    destruct (q_inst q) as [h|]; [|discriminate]. destruct (q_status q); [discriminate|].
+    destruct (nth_error (insts ks) h) as [s|] eqn:N; [|discriminate].
+    destruct (step _ s _) as [s'|] eqn:S; [|discriminate].
+    inversion H; subst; simpl. intros s1 r I1 Ir.
+    destruct (In_set_nth _ _ _ _ I1) as [I|I]; [eapply O; eauto|]. subst s1.
+    destruct (step_recs _ _ _ _ S r Ir) as [[r0 [I0 [E1 [E2 E3]]]]|[id [p0 [t0 [l [now0 [E [E1 [E2 E3]]]]]]]]].
+    + rewrite E1, E2, E3. eapply O; eauto. eapply nth_error_In; eauto.
+    + injection E as H1 H2 H3 H4 H5. rewrite E1, E2, E3, <- H1, <- H4, <- H5.
+      apply (QA rid0 p hdrs t now). reflexivity.
+  - destruct (pfind rid0 (preqs ks)) as [q|]; [|discriminate].
+    destruct (q_inst q) as [h|]; [|discriminate]. destruct (q_status q); [|discriminate].
+    destruct (nth_error (insts ks) h) as [s|] eqn:N; [|discriminate].
+    destruct (step _ s _) as [s'|] eqn:S; [|discriminate].
+    inversion H; subst; simpl. eapply Old; eauto. intros; destruct ra; discriminate.
+  - destruct (nth_error (insts ks) h) as [s|] eqn:N; [|discriminate].
+    destruct (step _ s _) as [s'|] eqn:S; [|discriminate].
+    inversion H; subst; simpl. eapply Old; eauto. intros; discriminate.
+Qed.
+
+Lemma ORIG_krun : forall v k (Q : Z -> Z -> Z -> Prop) acts ks,
+  (forall rid p hdrs t now, In (KEnq rid p hdrs t now) acts -> Q rid now (ttl_ns tv p)) ->
+  ORIG Q ks -> ORIG Q (krun v k ks acts).
+Proof.
+  intros v k Q acts. induction acts as [|a rest IH]; intros ks QA O; simpl; [exact O|].
+  apply IH; [intros rid p hdrs t now I; apply (QA rid p hdrs t now); right; exact I|].
+  unfold Plugin.kexec. destruct (kstep v k ks a) as [ks'|] eqn:E; [|exact O].
+  eapply ORIG_kstep; eauto. intros rid p hdrs t now Ea. apply (QA rid p hdrs t now). left. exact Ea.
+Qed.
+
+(* after any schedule with a monotone clock: if the TTL branch of request rid
+   can be taken at clock reading now, the TTL that was handed to Enqueue has
+   elapsed since the request entered Enqueue *)
+Lemma ttl_branch_origin : forall v pre k t0 rid now,
+  0 < kwsize k -> pmonotone t0 pre = true ->
+  kstep v k (pget k (prun v pinit pre)) (KR rid RTtl now) <> None ->
+  exists p hdrs t enq, In (PK k (KEnq rid p hdrs t enq)) pre /\ enq + ttl_ns tv p <= now.
+Proof.
+  intros v pre k t0 rid0 now W M H. rewrite pget_prun, pget_pinit in H.
+  set (ks := krun v k kinit (proj k pre)) in *.
+  cbn [Plugin.kstep] in H.
+  destruct (pfind rid0 (preqs ks)) as [q|]; [|congruence].
+  destruct (q_inst q) as [h|]; [|congruence]. destruct (q_status q); [|congruence].
+  destruct (nth_error (insts ks) h) as [s|] eqn:N; [|congruence].
+  cbn [ract_action step] in H.
+  destruct (find rid0 (reqs s)) as [r|] eqn:F; [|congruence].
+  destruct (phase_eqb (ph r) Parked && (dl r <=? now)) eqn:C; [|congruence].
+  apply andb_prop in C. destruct C as [C1 C2]. apply phase_eqb_eq in C1. apply Z.leb_le in C2.
+  destruct (find_In _ _ _ F) as [Ir Er].
+  pose proof (nth_error_In _ _ N) as Is.
+  destruct (krun_AT v k (proj k pre) kinit t0 W (proj_monotone k pre t0 M)) as [tl A]; [constructor|].
+  fold ks in A. rewrite Forall_forall in A. pose proof (at_dl _ _ _ (A s Is) r Ir C1) as D.
+  pose proof (ORIG_krun v k
+    (fun id a l => exists p hdrs t, In (KEnq id p hdrs t a) (proj k pre) /\ l = ttl_ns tv p)
+    (proj k pre) kinit) as O.
+  destruct (O (fun id p hdrs t nw I => ex_intro _ p (ex_intro _ hdrs (ex_intro _ t (conj I eq_refl))))
+              (fun s0 r0 (I : In s0 []) => match I with end) s r Is Ir) as [p [hdrs [t [I E]]]].
+  exists p, hdrs, t, (arr r). split; [apply proj_In; rewrite <- Er; exact I|]. rewrite <- E. lia.
+Qed.
+
+End WithTtl.
